@@ -318,6 +318,63 @@ def write_replay(ctx, name, obj):
     return path
 
 
+def run_bounded(cmd, timeout, input=None, **kw):
+    """subprocess.run for commands that start traced programs: own process group, hard wall-clock limit, and the
+    WHOLE group is killed afterwards — a grandchild that survives its parent (a tracee deadlocked inside a broken
+    libmcount) must not keep our pipes open for ever.  Returns (rc, stdout, stderr, timed_out)."""
+    import signal
+    kw.setdefault("stdout", subprocess.PIPE)
+    kw.setdefault("stderr", subprocess.PIPE)
+    kw.setdefault("text", True)
+    p = subprocess.Popen(cmd, stdin=subprocess.PIPE if input is not None else subprocess.DEVNULL,
+                         start_new_session=True, **kw)
+    timed_out = False
+    try:
+        out, err = p.communicate(input, timeout=timeout)
+    except subprocess.TimeoutExpired:
+        timed_out = True
+        out = err = None
+    try:
+        os.killpg(p.pid, signal.SIGKILL)
+    except (ProcessLookupError, PermissionError):
+        pass
+    if timed_out:
+        try:
+            out, err = p.communicate(timeout=10)
+        except subprocess.TimeoutExpired:
+            out, err = "", ""
+    return (p.returncode if p.returncode is not None else -9), out or "", err or "", timed_out
+
+
+WATCHDOG_S = {"quick": 1500, "thorough": 5400}
+
+
+def arm_watchdog(ctx):
+    """Last line of defence against a check that never returns (a changed tree can make a traced program or the
+    recorder hang in a way no per-command timeout covers): after WATCHDOG_S seconds the check kills its children,
+    reports that it could not decide — a VIOLATION without failing input, because the property is then not shown
+    to hold — and exits 1.  Never reached on the unchanged tree (quick checks take about a minute)."""
+    import signal
+
+    def on_alarm(signum, frame):
+        path = write_replay(ctx, "hang", {
+            "kind": "check-did-not-finish",
+            "what": "the check was still running after %d s; some command started by it hangs on this tree "
+                    "(per-command timeouts did not cover it)" % WATCHDOG_S[ctx.tier],
+            "note": "no verdict could be reached: the property is not shown to hold on this tree"})
+        print("VIOLATION property=%s replay=%s no-failing-input-found" % (ctx.prop, path))
+        sys.stdout.flush()
+        try:
+            signal.signal(signal.SIGTERM, signal.SIG_IGN)
+            os.killpg(os.getpgid(0), signal.SIGTERM)
+        except Exception:
+            pass
+        os._exit(1)
+
+    signal.signal(signal.SIGALRM, on_alarm)
+    signal.alarm(WATCHDOG_S.get(ctx.tier, 1500))
+
+
 def violation(ctx, name, obj, no_failing_input=False):
     path = write_replay(ctx, name, obj)
     ctx.violations.append((path, no_failing_input))
